@@ -149,6 +149,35 @@ Proof.
 Qed.
 Print Assumptions C08_sound_refuted_interior_star.
 
+(* The hypothesis on the SOA name is necessary too.  The caller takes the owner of the FIRST
+   SOA record of the authority section whatever its proof (find_soa_name); if that name is
+   not the apex but the next name of some genuine NSEC, the "next == soa" rule makes that
+   NSEC cover everything after its owner: here NXDOMAIN for the existing name w.s.e., with
+   none of the five classes firing. *)
+Theorem C08_sound_refuted_foreign_soa_name :
+  exists z q qt soa rc answers nsecs,
+    wf_zone z /\ (forall r, In r nsecs -> genuine z r) /\ genuine_answers z answers /\
+    (exists s, soa = Some s /\ In s (owners z) /\ prefix s q /\ s <> z_apex z) /\
+    verify_nsec q qt soa rc answers nsecs = Secure /\
+    ~ claim_holds z q qt rc answers /\
+    classes q qt soa rc answers nsecs = [false; false; false; false; false].
+Proof.
+  exists (mkZone nE [(nE, apexT); (nAE, [1; 46; 47]); ([[101]; [115]], [1; 46; 47]);
+                     ([[101]; [115]; [119]], [1; 46; 47])]),
+         [[101]; [115]; [119]], 1, (Some [[101]; [115]]), NXDomain, [],
+         [mkNsec nAE [[101]; [115]] [1; 46; 47]].
+  split; [apply wf_zoneb_sound; vm_compute; reflexivity|].
+  split; [intros r [<-|[]]; apply genuineb_sound; vm_compute; reflexivity|].
+  split; [apply genuine_answersb_sound; vm_compute; reflexivity|].
+  split.
+  { exists [[101]; [115]]. split; [reflexivity|]. split; [vm_compute; tauto|].
+    split; [exists [[119]]; reflexivity|discriminate]. }
+  split; [vm_compute; reflexivity|].
+  split; [|vm_compute; reflexivity].
+  intros H; apply claimb_iff in H; vm_compute in H; discriminate.
+Qed.
+Print Assumptions C08_sound_refuted_foreign_soa_name.
+
 (* ---- two of the classes are exact: inside them the claim is false in every zone, so an
         acceptance there is always wrong ---- *)
 
@@ -209,6 +238,27 @@ Proof.
   eapply complete_wildcard_answer with (z := z) (ce := ce) (c := c); eauto. left; reflexivity.
 Qed.
 Print Assumptions C08_complete_wildcard_answer_guarded_partial.
+
+(* NODATA at the wildcard of the closest encloser (the response carries the SOA): the NSEC
+   covering the name and the wildcard's own NSEC suffice.  Guards: no interior "*"; no NSEC of
+   another wildcard enclosing the query name in the list (the code would pick the shortest
+   one as "the" wildcard and then demand the real one to be covered). *)
+Theorem C08_complete_wildcard_nodata_guarded_partial : forall z q qt soa nsecs ce c r,
+  wf_zone z -> (forall r, In r nsecs -> genuine z r) ->
+  soa = Some (z_apex z) -> prefix (z_apex z) q -> k_star q = false ->
+  ~ exists_name z q -> is_ce z q ce ->
+  In c nsecs -> covers soa q c = true ->
+  In r nsecs -> n_owner r = prepend_star ce ->
+  ~ has_type z (prepend_star ce) qt -> ~ has_type z (prepend_star ce) T_CNAME ->
+  (forall r', In r' nsecs -> is_wildcard (n_owner r') = true ->
+              prefix (base_name (n_owner r')) q -> n_owner r' = prepend_star ce) ->
+  verify_nsec q qt soa NoError [] nsecs = Secure.
+Proof.
+  intros z q qt soa nsecs ce c r WF GEN Hs. intros.
+  eapply complete_wildcard_nodata with (z := z) (ce := ce) (c := c) (r := r); eauto.
+  right. exact Hs.
+Qed.
+Print Assumptions C08_complete_wildcard_nodata_guarded_partial.
 
 (* ---- where completeness is lost although the list is the WHOLE genuine chain and the
         claim is true ---- *)
@@ -311,3 +361,108 @@ Proof. instance. Qed.
 Example C08_example_wildcard_nodata : (* c.e. TXT: *.e. has A only *)
   hyps zEx nCE 16 (Some nE) NoError [] [mkNsec nBE nE [1; 46; 47]; mkNsec nSE nAAE [1; 46; 47]].
 Proof. instance. Qed.
+
+(* ---- non-vacuity of the completeness theorems and of the two lemmas about covering:
+        each is applied to concrete data, all hypotheses discharged ---- *)
+
+Ltac gen_zEx :=
+  let r := fresh in let Hr := fresh in
+  intros r Hr; cbn [In] in Hr;
+  repeat (destruct Hr as [<-|Hr]; [apply genuineb_sound; vm_compute; reflexivity|]); contradiction.
+
+Lemma wf_zEx : wf_zone zEx.
+Proof. apply wf_zoneb_sound. vm_compute. reflexivity. Qed.
+
+Example C08_complete_nodata_example :
+  verify_nsec nBE 16 (Some nE) NoError [] [mkNsec nBE nE [1; 46; 47]] = Secure.
+Proof.
+  apply (C08_complete_nodata_partial zEx nBE 16 (Some nE) _ (mkNsec nBE nE [1; 46; 47]) wf_zEx).
+  - gen_zEx.
+  - right. reflexivity.
+  - now left.
+  - reflexivity.
+  - intros H. apply has_typeb_iff in H. vm_compute in H. discriminate.
+  - intros H. apply has_typeb_iff in H. vm_compute in H. discriminate.
+Qed.
+
+Example C08_complete_nxdomain_example :
+  verify_nsec [[101]; [98]; [99]] 1 (Some nE) NXDomain [] [mkNsec nBE nE [1; 46; 47]] = Secure.
+Proof.
+  apply (C08_complete_nxdomain_guarded_partial zEx [[101]; [98]; [99]] 1 (Some nE) _
+           (mkNsec nBE nE [1; 46; 47]) (mkNsec nBE nE [1; 46; 47]) wf_zEx).
+  - gen_zEx.
+  - reflexivity.
+  - exists [[98]; [99]]. reflexivity.
+  - intros H. apply exists_nameb_iff in H. vm_compute in H. discriminate.
+  - reflexivity.
+  - now left.
+  - reflexivity.
+  - now left.
+  - intros ce Hce.
+    assert (E : ce = nBE).
+    { apply (is_ce_unique zEx [[101]; [98]; [99]]); [exact Hce|]. apply is_ceb_iff. vm_compute. reflexivity. }
+    subst ce. reflexivity.
+Qed.
+
+Example C08_complete_wildcard_answer_example :
+  verify_nsec [[101]; [48]; [120]] 1 None NoError
+    [mkAns [[101]; [48]; [120]] true None; mkAns [[101]; [48]; [120]] true (Some 1)]
+    [mkNsec nSE nAAE [1; 46; 47]] = Secure.
+Proof.
+  apply (C08_complete_wildcard_answer_guarded_partial zEx [[101]; [48]; [120]] 1 _ _ nE
+           (mkNsec nSE nAAE [1; 46; 47]) wf_zEx).
+  - gen_zEx.
+  - reflexivity.
+  - intros H. apply exists_nameb_iff in H. vm_compute in H. discriminate.
+  - apply is_ceb_iff. vm_compute. reflexivity.
+  - vm_compute. reflexivity.
+  - discriminate.
+  - intros r l [<-|[<-|[]]] Hs Hl; cbn in Hl; [discriminate|]. inversion Hl. split; reflexivity.
+  - exists (mkAns [[101]; [48]; [120]] true (Some 1)). split; [right; now left|]. split; reflexivity.
+  - now left.
+  - reflexivity.
+Qed.
+
+Example C08_complete_wildcard_nodata_example :
+  verify_nsec nCE 16 (Some nE) NoError [] [mkNsec nBE nE [1; 46; 47]; mkNsec nSE nAAE [1; 46; 47]] = Secure.
+Proof.
+  apply (C08_complete_wildcard_nodata_guarded_partial zEx nCE 16 (Some nE) _ nE
+           (mkNsec nBE nE [1; 46; 47]) (mkNsec nSE nAAE [1; 46; 47]) wf_zEx).
+  - gen_zEx.
+  - reflexivity.
+  - exists [[99]]. reflexivity.
+  - reflexivity.
+  - intros H. apply exists_nameb_iff in H. vm_compute in H. discriminate.
+  - apply is_ceb_iff. vm_compute. reflexivity.
+  - now left.
+  - reflexivity.
+  - right. now left.
+  - reflexivity.
+  - intros H. apply has_typeb_iff in H. vm_compute in H. discriminate.
+  - intros H. apply has_typeb_iff in H. vm_compute in H. discriminate.
+  - intros r' [<-|[<-|[]]] Hw Hp; [vm_compute in Hw; discriminate|reflexivity].
+Qed.
+
+(* C08_covered_absent / C08_closest_encloser_from_cover: a.e. is covered by *.e. -> a.a.e.,
+   exists (as an empty non-terminal), and indeed lies above the next name; the closest
+   encloser of x.0.e. read off the same NSEC is e. *)
+Example C08_covered_absent_example :
+  prefix nAE nAAE /\ nAE <> nAAE /\ is_ce zEx [[101]; [48]; [120]] nE.
+Proof.
+  pose proof (C08_covered_absent zEx (Some nE) nAE (mkNsec nSE nAAE [1; 46; 47]) wf_zEx) as H.
+  destruct H as [H1 H2].
+  - apply genuineb_sound. vm_compute. reflexivity.
+  - right. reflexivity.
+  - reflexivity.
+  - apply exists_nameb_iff. vm_compute. reflexivity.
+  - split; [exact H1|]. split; [exact H2|].
+    pose proof (C08_closest_encloser_from_cover zEx None [[101]; [48]; [120]]
+                  (mkNsec nSE nAAE [1; 46; 47]) wf_zEx) as H.
+    destruct H as [H _].
+    + apply genuineb_sound. vm_compute. reflexivity.
+    + left. reflexivity.
+    + reflexivity.
+    + exact H.
+Qed.
+
+(* the two exact classes are inhabited by the witnesses above (k_deleg, k_closer = true there) *)
